@@ -4,7 +4,7 @@ import z3
 from .engine import (Adt, Opaque, StrS, all_lits, f_uuid_ok, f_uuid_hyph, f_dec_ok, f_dec_n, f_dec_d, f_addr_ok, f_marker_found, f_marker_dec,
                      f_marker_type, f_attr_ok, f_sv_ok, f_sv_maj, f_sv_min, f_sv_pat, f_sv_pre, f_numstr)
 from .models import f_decstr, snake
-from .engine import f_dec_canon
+from .engine import f_dec_canon, f_dec_scale
 
 
 def dec_text(n, d):
@@ -122,6 +122,19 @@ class Concretiser:
         if self.bool(f_dec_ok(t)) and role in ('decimal', 'other', 'name'):
             n, d = self.int(f_dec_n(t)), self.int(f_dec_d(t))
             full = len(str(d)) - 1
+            sc = self.int(f_dec_scale(t))
+            if 0 <= sc <= full and n % (10 ** (full - sc)) == 0:
+                n, d = n // (10 ** (full - sc)), 10 ** sc              # exactly the number of fractional digits the model gave this text
+                txt = dec_text(n, d)
+                canon = self.bool(f_dec_canon(t))
+                if canon and txt not in self.used:
+                    return txt
+                if not canon:
+                    txt = txt if txt.startswith('-') else '+' + txt
+                    while txt in self.used:
+                        txt = txt[0] + '0' + txt[1:]
+                    return txt
+                n, d = self.int(f_dec_n(t)), self.int(f_dec_d(t))     # clash: fall back to the free choice of spelling below
             while d > 1 and n % 10 == 0:
                 n, d = n // 10, d // 10
             txt = dec_text(n, d)
